@@ -35,6 +35,7 @@ func Advance(d time.Duration)
 func Unlocked(l sync.Locker) bool
 func RUnlocked(l *sync.RWMutex) bool
 func DeepEqual(a, b any) bool
+func CanonEqual(a, b any) bool
 func Observe(label string, v uint64)
 func AllMapOrders(on bool)
 func AllSchedules(on bool)
